@@ -39,7 +39,8 @@ def gen_round(rng, n, deps, hard, profile):
             out.append('done')
     return {'n': n, 'deps': [list(d) for d in deps[:n]], 'hard': [list(d) for d in hard[:n]], 'out': out,
             'workers': rng.choice([1, 1, 2, 2, 3, 4, 6]), 'cyclic': False, 'lose': [], 'stale': [],
-            'sched': [rng.choice(['random', 'random', 'pct']), rng.randrange(1 << 30)], 'same_backend': False}
+            'sched': [rng.choice(['random', 'random', 'pct']), rng.randrange(1 << 30)], 'same_backend': False,
+            'twice': rng.random() < 0.4}
 
 
 def gen(rng, tier, profile):
@@ -63,7 +64,18 @@ def gen(rng, tier, profile):
             nxt['same_backend'] = True
             nxt['workers'] = r['workers']
             rounds.append(nxt)
+    if profile == 'C01' and rng.random() < 0.35:
+        # a resumed run: some results of the first run are lost, their dependents are stale
+        nxt = gen_round(rng, n, deps, hard, profile)
+        nxt['lose'] = [t for t in range(n) if rng.random() < 0.3]
+        rounds.append(nxt)
     if profile == 'C04':
+        if rng.random() < 0.3:
+            # entries left by earlier runs on a coarse clock: DONE with equal clocks (a dependency that ended at the very
+            # tick its dependent started is not newer), or in any other state
+            for t in range(n):
+                if rng.random() < 0.6:
+                    rounds[0]['stale'].append([t, rng.choice([3, 3, 3, 4, 5, 2]), True])
         for _ in range(rng.randrange(1, 5)):
             n = min(len(deps), n + rng.choice([0, 0, 0, 1, 2]))
             nxt = gen_round(rng, n, deps, hard, profile)
@@ -155,10 +167,18 @@ def run_rounds(case, sched_override=None):
         def do(self, env, config):
             st = self.state
             st['exec'][self.idx] += 1
-            st['seen'][self.idx] = [entry_digest(env.get(f't{d}')) for d in st['deps'][self.idx]]
+            st['order'].append(self.idx)
+            seen = [entry_digest(env.get(f't{d}')) for d in st['deps'][self.idx]]
+            # every task also publishes under a top-level key shared by all tasks: the *complete* update of a dependency
+            # executed in this run must be readable
+            shared = env.get('shared') or {}
+            for d, ent in zip(st['deps'][self.idx], seen):
+                if ent is not None and ent[0] == 3 and st['exec'][d] >= 1 and shared.get(f't{d}') != ent[1]:
+                    ent[1] = None
+            st['seen'][self.idx] = seen
             version = st['ctl'].clock
             out = st['out'][self.idx]
-            update = {self.name: {'result': version}}
+            update = {self.name: {'result': version}, 'shared': {self.name: version}}
             if out == 'done':
                 return update, TaskStatus.DONE
             if out == 'failedRet':
@@ -181,7 +201,7 @@ def run_rounds(case, sched_override=None):
     clock = 0
     for ri, rnd in enumerate(case['rounds']):
         n = rnd['n']
-        state = {'exec': [0] * n, 'seen': [None] * n, 'deps': rnd['deps'], 'out': rnd['out'], 'ctl': None}
+        state = {'exec': [0] * n, 'seen': [None] * n, 'deps': rnd['deps'], 'out': rnd['out'], 'ctl': None, 'order': []}
         tasks = [Probe(i, state) for i in range(n)]
         hard_graph, soft_graph = DepGraph(), DepGraph()
         for t in tasks:
@@ -198,7 +218,7 @@ def run_rounds(case, sched_override=None):
                 hard_graph.add_dependency(tasks[n - 1], on=tasks[0])
             else:
                 extra = Probe(n, {'exec': [0] * (n + 1), 'seen': [None] * (n + 1), 'deps': rnd['deps'] + [[]],
-                                  'out': rnd['out'] + ['done'], 'ctl': None})
+                                  'out': rnd['out'] + ['done'], 'ctl': None, 'order': []})
                 hard_graph.add_dependency(extra, on=extra)
         spec = rnd['sched'] if sched_override is None else sched_override[ri]
         chooser = make_chooser(spec[:2], ctlsched, spec[2] if len(spec) > 2 else None)
@@ -208,6 +228,7 @@ def run_rounds(case, sched_override=None):
             # the environment is created inside the session: its lock is then an instrumented one
             env_in = Env()
             if prev_env is not None:
+                prev_env.pop('shared', None)      # not a task entry (merge_done_tasks expects a status in every entry)
                 env_in.merge_done_tasks(prev_env)
                 for t in rnd['lose']:
                     if f't{t}' in env_in:
@@ -248,6 +269,9 @@ def run_rounds(case, sched_override=None):
             ctl.on_step = on_step
             order_ok = True
             try:
+                if rnd.get('twice'):
+                    # the graphs belong to the caller: an earlier Scheduler built from the same objects changes nothing
+                    Scheduler(hard_graph=hard_graph, soft_graph=soft_graph, backend=backend)
                 scheduler = Scheduler(hard_graph=hard_graph, soft_graph=soft_graph, backend=backend)
                 if not rnd['cyclic']:
                     order = [t.idx for t in scheduler.full_graph.topological_sort()]
@@ -281,6 +305,10 @@ def run_rounds(case, sched_override=None):
         obs['env_out'] = [entry_digest(env_out.get(f't{t}')) for t in range(n)]
         obs['exec'] = list(state['exec'])
         obs['seen'] = state['seen']
+        obs['order'] = list(state['order'])
+        shared_out = env_out.get('shared') or {}
+        obs['shared_lost'] = [t for t in range(n) if obs['env_out'][t] is not None and obs['env_out'][t][0] == 3
+                              and state['exec'][t] >= 1 and shared_out.get(f't{t}') != obs['env_out'][t][1]]
         observations.append(obs)
         prev_env = env_out
     return observations
@@ -376,6 +404,17 @@ def oracle_c01(case, impl, run):
                     final = obs['env_out'][d]
                     if final and final[0] == 3 and obs['exec'][d] <= 1 and final[1] != ent[1] and obs['env0'][d] is None:
                         fails.append(('dep_safe_inv', f'round {ri}: task {t} read version {ent[1]} of dependency {d}, final is {final[1]}'))
+        # a dependency that is final when a task starts is not executed (again) afterwards
+        order = obs.get('order', [])
+        for pos, t in enumerate(order):
+            later = set(order[pos + 1:])
+            for d in rnd['deps'][t]:
+                if d in later:
+                    fails.append(('dep_safe_inv', f'round {ri}: dependency {d} was executed after task {t} had started '
+                                  f'(execution order {order}): it had not reached its final state'))
+        if obs.get('shared_lost'):
+            fails.append(('dep_safe_inv', f'round {ri}: the complete update of task(s) {obs["shared_lost"]} is not readable from the '
+                          f'final environment (part published under a key shared with other tasks was lost)'))
     return fails
 
 
@@ -435,7 +474,7 @@ def oracle_c04(case, impl, run):
                 if dep is not None and dep[0] in (4, 5):
                     fails.append(('rerun_consistent', f'round {ri}: task {t} is DONE but its hard dependency {h} has status {dep[0]}'))
         # a task that was DONE, with all its transitive dependencies DONE and not re-executed, is not executed again
-        if ri > 0:
+        if any(e is not None for e in obs['env0']):
             env0 = obs['env0']
             memo = {}
 
